@@ -109,7 +109,10 @@ def pool : List Rule := [
   ⟨"sum-infactor-f4", mul (pv "c") (sum "f4" (pv "a")), sum "f4" (mul (pv "c") (pv "a")), [], [("f4", "c")]⟩,
   -- free pattern slots: `$a` occurs twice on the left, `$b` once (the matcher has to bind them to distinct e-graph slots
   -- and the two occurrences of `$a` to the same one)
-  ⟨"var-factor", add (mul (var "a") (var "b")) (var "a"), mul (var "a") (add (var "b") (num 1)), [], []⟩
+  ⟨"var-factor", add (mul (var "a") (var "b")) (var "a"), mul (var "a") (add (var "b") (num 1)), [], []⟩,
+  -- the bound slot is mentioned explicitly below its binder, in the last e-node of the left pattern
+  ⟨"sum-infactor-var", mul (pv "a") (sum "i" (mul (var "i") (pv "b"))), sum "i" (mul (var "i") (mul (pv "a") (pv "b"))), [],
+      [("i", "a")]⟩
 ]
 
 open P in
